@@ -279,6 +279,14 @@ tup!(A:0, B:1, C:2, D:3, E:4);
 tup!(A:0, B:1, C:2, D:3, E:4, F:5);
 tup!(A:0, B:1, C:2, D:3, E:4, F:5, G:6);
 tup!(A:0, B:1, C:2, D:3, E:4, F:5, G:6, H:7);
+tup!(A:0, B:1, C:2, D:3, E:4, F:5, G:6, H:7, I:8);
+tup!(A:0, B:1, C:2, D:3, E:4, F:5, G:6, H:7, I:8, J:9);
+tup!(A:0, B:1, C:2, D:3, E:4, F:5, G:6, H:7, I:8, J:9, K:10);
+tup!(A:0, B:1, C:2, D:3, E:4, F:5, G:6, H:7, I:8, J:9, K:10, L:11);
+tup!(A:0, B:1, C:2, D:3, E:4, F:5, G:6, H:7, I:8, J:9, K:10, L:11, M:12);
+tup!(A:0, B:1, C:2, D:3, E:4, F:5, G:6, H:7, I:8, J:9, K:10, L:11, M:12, N:13);
+tup!(A:0, B:1, C:2, D:3, E:4, F:5, G:6, H:7, I:8, J:9, K:10, L:11, M:12, N:13, O:14);
+tup!(A:0, B:1, C:2, D:3, E:4, F:5, G:6, H:7, I:8, J:9, K:10, L:11, M:12, N:13, O:14, P:15);
 
 impl<L: ToV, T: ToV, E: ToV> ToV for ErrorRecovery<L, T, E> {
     fn to_v(&self) -> V {
